@@ -1483,7 +1483,17 @@ func (w *VerifWorld) Op(op string) string {
 			case "corrupt":
 				off := verifAtoi(m["off"], 0)
 				if off < len(f.data) {
-					f.data[off] ^= 0xFF
+					// always a byte that differs from the true content (flipping the current byte would undo an
+					// earlier corruption at the same offset)
+					tb := byte(0)
+					pos := 0
+					for i, l := range w.flens {
+						if w.fileName(i) == n && !w.fpads[i] && off < l {
+							tb = w.content[pos+off]
+						}
+						pos += l
+					}
+					f.data[off] = tb ^ 0xFF
 				}
 			case "fill":
 				// write the true content (as if another client completed it)
@@ -1746,6 +1756,17 @@ func (w *VerifWorld) opMsg(m map[string]string) string {
 		return w.opPiece(p, m)
 	default:
 		return "bad-op"
+	}
+	if rq, ok := msg.(peerprotocol.RequestMessage); ok && rq.Length > 16384 {
+		// the peer reader ends with an error for a request longer than 16 KiB: the message never reaches the loop,
+		// the peer is reported as disconnected instead
+		select {
+		case w.t.peerDisconnectedC <- p.pe:
+		case <-time.After(5 * time.Second):
+			w.dead = true
+			return "hang"
+		}
+		return w.observeAfterSettle()
 	}
 	select {
 	case w.t.messages <- peer.Message{Peer: p.pe, Message: msg}:
